@@ -1,4 +1,5 @@
 import LoraVerif.Model.Mac
+import LoraVerif.Props.TieA.PrepareBuffer
 import LoraVerif.Gen.SessionStatic
 import LoraVerif.Props.TieA.SetAdr
 import LoraVerif.Props.TieA.Rx2Complete
@@ -92,4 +93,51 @@ example :
       = some (.NoAck, 128, ._2) := by decide
 
 #print axioms tieA_rx2_complete
+/-- builder N — the header of the uplink: the state-passing translation of the current source of
+`Session::prepare_buffer` (`Gen/SessionTx.lean`; the `Uplink` helpers it calls translated as well) hands,
+for EVERY frame codec and radio buffer, exactly one `DataFrame` to `build_into` under the session's
+NwkSKey / AppSKey, and the model's `prepareBuffer` yields exactly that frame's description and the
+corresponding new session: ADR = `adr_enabled`; ADRACKReq = ADR ∧ `adr_ack_cnt ≥ ADR_ACK_LIMIT` ∧ a lower
+data rate exists; ACK = the owed-ACK flag, which is cleared; FCnt = `fcnt_up` (not advanced here);
+confirmed flag stored and used for the frame type; pending answers in FOpts when FPort ≠ 0, as the
+port-0 payload with empty FOpts when FPort = 0; data on port 0 panics on both sides; FPending never
+set; afterwards the pending answers are reduced to the sticky ones.  Abstract: frame encryption / MIC
+(`codec`), the radio buffer, `next_lower_datarate` (the model's), the iterator pipeline of
+`clear_mac_commands(true)` (`hret`).  The model's two length panics are stated on the frame's length.
+Proved in `Props/TieA/PrepareBuffer.lean`. -/
+theorem tieA_prepare_buffer_header {β : Type} [Gen.SessionTx.TxBufOps β] (codec : Gen.SessionTx.FrameCodec)
+    (gs : Gen.SessionTx.Session) (d : Gen.SessionTx.SendData) (tx : β) (g : Gen.SessionTx.Configuration) (r : RegionId)
+    (hp : 0 ≤ d.fport)
+    (hret : ∀ p, TieA.Tx.natsOf (Gen.SessionTx.retained_pipeline p []) = retainSticky (p.length + 1) (TieA.Tx.natsOf p)) :
+    if d.fport = 0 ∧ d.data ≠ [] then
+      Gen.SessionTx.Session.prepare_buffer codec gs d tx g (TieA.Tx.regionOf r) = none ∧
+      prepareBuffer (TieA.Tx.sessOf gs) (TieA.Tx.cfgOf g) r (TieA.Tx.natsOf d.data) d.fport.toNat d.confirmed
+        = panic "Data payload with fport 0 not allowed"
+    else ∃ (f : Gen.SessionTx.DataFrame) (gs' : Gen.SessionTx.Session),
+      Gen.SessionTx.Session.prepare_buffer codec gs d tx g (TieA.Tx.regionOf r)
+        = (codec.build_into f (List.replicate 256 0) ⟨gs.nwkskey.inner⟩ (some ⟨gs.appskey.inner⟩)).bind (fun pkt =>
+            let o := Gen.SessionTx.TxBufOps.extend_from_slice (Gen.SessionTx.TxBufOps.clear (Gen.SessionTx.TxBufOps.clear tx)) pkt
+            o.1.map (fun _ => (gs.fcnt_up, gs', o.2)))
+      ∧ f.f_pending = false
+      ∧ f.frame_type = (if d.confirmed then .ConfirmedUp else .UnconfirmedUp)
+      ∧ prepareBuffer (TieA.Tx.sessOf gs) (TieA.Tx.cfgOf g) r (TieA.Tx.natsOf d.data) d.fport.toNat d.confirmed
+          = (if TieA.Tx.frameLen f > 256 then panic "Error assembling packet: BufferTooShort"
+             else if TieA.Tx.frameLen f ≥ 256 then panic "tx_buffer.extend_from_slice unwrap"
+             else .ok (TieA.Tx.descOf f, TieA.Tx.sessOf gs')) :=
+  TieA.Tx.tieA_prepare_buffer_header codec gs d tx g r hp hret
+
+/-- non-vacuity: a recording codec (answers the FCtrl bits, FCnt, FOpts, port and payload) and a list as
+the buffer.  ADR on at count 64 in EU868 DR5 with an ACK owed and one pending answer: ADR, ADRACKReq and
+ACK are set, the answer rides in FOpts on port 7, and the session forgets the owed ACK -/
+example :
+    let codec : Gen.SessionTx.FrameCodec := ⟨fun f _ _ _ => some ([Rt.b2i f.adr, Rt.b2i f.adr_ack_req, Rt.b2i f.ack, f.fcnt] ++ f.f_opts ++
+      (match f.payload with | .Data p d => p :: d | .MacCommands c => 0 :: c | .None => []))⟩
+    let _ : Gen.SessionTx.TxBufOps (List Int) := ⟨fun _ => [], fun b s => (some (), b ++ s)⟩
+    (Gen.SessionTx.Session.prepare_buffer codec ⟨⟨[6, 255, 10], true⟩, false, ⟨⟨1⟩⟩, ⟨⟨2⟩⟩, ⟨3⟩, 41, none, 64⟩ ⟨[170], 7, true⟩ ([9] : List Int)
+        ⟨._5, 1000, 5000, 6000, none, 0, none, none, true⟩ (TieA.Tx.regionOf .EU868)).map
+      (fun o => (o.1, o.2.1.uplink.confirmed, o.2.1.confirmed, o.2.1.fcnt_up, o.2.2))
+      = some (41, false, true, 41, [1, 1, 1, 41, 6, 255, 10, 7, 170]) := by
+  rfl
+
+#print axioms tieA_prepare_buffer_header
 end C12
